@@ -124,6 +124,51 @@ for name, cfg, arg, files, socks in cases:
         print(("AGREE   " if same else "DIFFER  ") + name + (" / exec fails" if failing else " / exec succeeds"))
         if not same:
             print("   real:", real); print("   sim: ", sim)
+# ---- snoopyctl: system calls on the preload file, real binary under strace versus the ctl engine's census
+simctl = subprocess.run([VERIF + "/bin/build_ctl.sh"], stdout=subprocess.PIPE, stderr=subprocess.DEVNULL, text=True).stdout.strip().splitlines()[-1]
+ctlbin = libdir + "/cli/snoopyctl"
+def real_ctl(op, initial):
+    pre = work + "/ld.so.preload"
+    for f in (pre, pre + ".snoopy-tmp"):
+        if os.path.exists(f): os.unlink(f)
+    if initial is not None: open(pre, "w").write(initial)
+    out = work + "/ctl.strace"
+    subprocess.run(["strace", "-o", out, "-e", "trace=access,openat,read,write,lseek,close,fsync,fdatasync,rename,unlink,stat,newfstatat,fchmod,fchown,chmod", ctlbin, op],
+                   env={"SNOOPY_TEST_LD_SO_PRELOAD_PATH": pre, "SNOOPY_TEST_LIBSNOOPY_SO_PATH": libdir + "/libsnoopy.so", "PATH": "/usr/bin:/bin"}, stdout=subprocess.DEVNULL, stderr=subprocess.DEVNULL)
+    seq, fds = [], {}
+    for l in open(out):
+        m = re.match(r"(\w+)\((.*)\)\s*=\s*(-?\d+)", l)
+        if not m: continue
+        k, args, ret = m.group(1), m.group(2), int(m.group(3))
+        if k == "access" and "libsnoopy.so" in args: seq.append("access")
+        elif k == "openat" and "ld.so.preload" in args: fds[ret] = 1; seq.append("open")
+        elif k in ("read", "write", "lseek", "close", "fsync", "fdatasync", "fchmod", "fchown") and int(args.split(",")[0].rstrip(")") or -1) in fds:
+            if k == "read" and ret == 0: continue          # end-of-file probe of stdio
+            seq.append(k)
+            if k == "close": fds.pop(int(args.split(",")[0].rstrip(")")))
+        elif k == "newfstatat" and "ld.so.preload" in args and "AT_EMPTY_PATH" not in args: seq.append("stat")
+        elif k == "rename": seq.append("rename")
+        elif k == "unlink" and "ld.so.preload" in args: seq.append("unlink")
+    return seq
+def sim_ctl(op, initial):
+    plan = {"property": "C20", "seed": 0, "engine": "ctl", "variant": "ctl", "initial": initial, "plan": [op], "crash_at": -1, "fault": {"nth": -1, "err": 0, "short": False}, "extra": {}}
+    # the census trace is produced by the generator; reuse it through a replay with the trace printed
+    f = work + "/ctlplan.json"; json.dump(plan, open(f, "w"))
+    r = subprocess.run([simctl, "trace", f], stdout=subprocess.PIPE, text=True)
+    return [x for x in r.stdout.split() if x]
+for op, initial in (("enable", "/lib/foreign.so\n"), ("enable", None), ("enable", ""), ("disable", "/lib/a.so\n" + libdir + "/libsnoopy.so\n/lib/z.so\n")):
+    real = real_ctl(op, initial)
+    sim = sim_ctl(op, None if initial is None else initial.replace(libdir + "/libsnoopy.so", "/simroot/lib/libsnoopy.so"))
+    # lseek on the read-only stream differs between a real file and a cookie stream (glibc positions them differently);
+    # it changes nothing on disk, so crash points around it are equivalent: compared without it
+    real = [x for x in real if x != "lseek"]; sim = [x for x in sim if x != "lseek"]
+    same = real == sim
+    bad += 0 if same else 1
+    name = "snoopyctl %s on %r" % (op, initial if initial is None else initial.replace(libdir, "<L>"))
+    rep.append({"case": name, "agree": same, "real": real, "simulated": sim})
+    print(("AGREE   " if same else "DIFFER  ") + name)
+    if not same:
+        print("   real:", real); print("   sim: ", sim)
 json.dump({"library": "plain-ts build of the current /repo tree", "cases": rep, "disagreements": bad}, open(VERIF + "/conformance/report.json", "w"), indent=1)
 shutil.rmtree(work, ignore_errors=True)
 if created_simroot: shutil.rmtree("/simroot", ignore_errors=True)
